@@ -106,7 +106,7 @@ def region_map(chk, P):
     holder.attrs.update({"_detach_point": dp, "_attach_point": ap, "_spline_callable": W.param("spline")})
     pot = I.instantiate(cls, [holder], {}, None)
     v = I.call(pot, [Num(ep.sym("r"))], {})
-    site = cls.lookup("__call__").site()
+    site = cls.site_of("__call__")
     r, d, a = ep.sym("r"), ep.sym("detach"), ep.sym("attach")
     leaves = phi_leaves(v)
     got = {}
@@ -257,7 +257,7 @@ def exp_spline(chk, P):
     inst = F.form_instance(I, P, "exp_spline")
     params = F.call_params(inst)
     chk.ob("C10.O2", "exp_spline takes (B0..B5, C) in the order the coefficients are produced",
-           params[1:] == ["B0", "B1", "B2", "B3", "B4", "B5", "C"], site=inst.ci.lookup("__call__").site(), found=params,
+           params[1:] == ["B0", "B1", "B2", "B3", "B4", "B5", "C"], site=inst.ci.site_of("__call__"), found=params,
            expect="r, B0..B5, C", key="C10.O2|signature")
 
 
